@@ -169,6 +169,32 @@ func runC20(c *runCfg) error {
 			}
 		}
 	}
+	// ... per connection: two connections of one server prepare different queries under the same name (named and
+	// unnamed); each Describe announces the count of the query THIS connection prepared
+	{
+		qs := []string{"select $2, $1", "? ? ? ? ?", "select 1", "select $3"}
+		var entries []parseEntry
+		for qi, q := range qs {
+			n, _, _ := ppObserve([]byte(q))
+			if n < 0 {
+				n = 0
+			}
+			entries = append(entries, parseEntry{query: []byte(q), stmts: []stmtT{{id: 80 + qi, cols: textCols(1), poids: make([]int, n), prog: []opT{{kind: "complete", tag: []byte("OK")}}, ret: "nil"}}})
+		}
+		cfg := cfgT{limit: 0, auth: "none", term: "none", ppDeclare: true, parse: entries}
+		k := 0
+		for a := range qs {
+			for _, nm := range [][]byte{[]byte("users"), nil} {
+				b := (a + 1) % len(qs)
+				ca := lockCase(0, "two_connections", cfg, startupMsg("user", "a"), [][]byte{mParse(nm, []byte(qs[a]), 0), mDescribe('S', nm), mSync(), mDescribe('S', nm), mSync()})
+				ca.id = fmt.Sprintf("%d.0", 830000+k)
+				cb := lockCase(0, "two_connections", cfg, startupMsg("user", "b"), [][]byte{mParse(nm, []byte(qs[b]), 0), mDescribe('S', nm), mSync(), mDescribe('S', nm), mSync()})
+				cb.id = fmt.Sprintf("%d.1", 830000+k)
+				emitMulti(c, "two_connections", []*caseT{ca, cb}, []int{0, 1, 0, 1, 1, 0, 0, 1, 0, 1, 0, 1}, false)
+				k++
+			}
+		}
+	}
 	// exhaustive: all strings of length <= L over a 6 letter alphabet
 	alpha := []byte("$?019a")
 	L := 5
